@@ -71,3 +71,21 @@ Theorem C08_chain_is_inorder_partial : forall t,
   flat_map leaf_entries (ScanDefs.bt_leaves t) = bt_elems t.
 Proof. exact bt_leaves_elems. Qed.
 Print Assumptions C08_chain_is_inorder_partial.
+
+(** ** Every reachable state of the whole system is well formed (scan-free histories) *)
+From Yk Require Import SpecDefs StoreProofs SysDefs SysProofs.
+
+Theorem C08_wf_reachable : forall ops,
+  Forall (fun o => noscan o = true) ops -> Forall op_bytes ops ->
+  SysInv (fst (exec_all sys_init ops)) (fst (spec_exec_all spec_init ops)).
+Proof. exact reachable_inv. Qed.
+Print Assumptions C08_wf_reachable.
+
+(** what well-formedness of a storage means, in plain terms: prefixes unique, every layer a
+    well-formed B+-tree (sorted unique entries, separators bounding subtrees, valid permutation
+    words), ids distinct across all layers, link entries <=> existing non-empty sub-layers, every
+    sub-layer hangs under its link *)
+Theorem C08_wf_store_reading : forall ctr tr, WF_store ctr tr -> t_null tr = false ->
+  WFL ctr (t_layers tr) None.
+Proof. intros ctr tr H Hn. unfold WF_store in H. rewrite Hn in H. exact H. Qed.
+Print Assumptions C08_wf_store_reading.
